@@ -323,6 +323,9 @@ class Composition(Loggable):
                 )
             return comp
 
+        # nothing to update upstream of this component without time step:
+        # it is no longer part of the active dependency chain
+        del chain[comp]
         return None
 
     def _collect_adapters(self):
